@@ -52,6 +52,7 @@ package chacha20
 //@ loop 1 invariant sameobj(src, entry(src)) && off(src) + len(src) == off(entry(src)) + len(entry(src))
 //@ loop 1 invariant sameobj(dst, entry(dst)) && off(dst) + len(dst) == off(entry(dst)) + len(entry(dst))
 //@ loop 1 invariant s.counter == (before(s.counter) + (len(entry(src)) - len(src)) / 64) % 4294967296
+//@ loop 1 invariant sameoutside(entry(dst))
 
 //@ func (*Cipher).xorKeyStreamBlocks
 //@ inline
@@ -87,6 +88,7 @@ package chacha20
 //@ loop 1 invariant -1 <= rangeindex && rangeindex < len(keyStream)
 //@ loop 1 invariant forall(k, 0, rangeindex + 1, dst[k] == before(src[k]) ^ spec.ks(s, before(pos(s)) + k))
 //@ loop 1 invariant forall(k, rangeindex + 1, len(src), src[k] == before(src[k]))
+//@ loop 1 invariant sameoutside(dst)
 
 //@ func hChaCha20
 //@ props C03
